@@ -37,12 +37,13 @@ EPM_CTX = None
 
 def plan(tier, seed):
     specs = []
-    replies = ["bind_ack_small", "bind_ack_big", "alter_context_resp", "response_0", "response_1", "response_100", "fault", "sealed_response_40"]
+    replies = ["bind_ack_small", "bind_ack_big", "alter_context_resp", "response_0", "response_1", "response_100", "fault", "sealed_response_40", "second_response_60"]
     for r in replies:
         for client in ("sync", "async"):
             specs.append({"name": f"{r}-{client}", "kind": "small", "reply": r, "client": client})
     for client in ("sync", "async"):
         specs.append({"name": f"response_5000-{client}", "kind": "large", "reply": "response_5000", "client": client, "step": 41 if tier == "quick" else 1})
+        specs.append({"name": f"response_65000-{client}", "kind": "large", "reply": "response_65000", "client": client, "step": 4001 if tier == "quick" else 211})
         specs.append({"name": f"random-{client}", "kind": "random", "client": client, "n": 1500 if tier == "quick" else 40000})
     return specs
 
@@ -63,6 +64,9 @@ def build_reply(name: str) -> bytes:
         return rrpc.encode(dict(ptype=rrpc.BIND_ACK, flags=FL | 4, call_id=1, auth=dict(type=10, level=6, pad=0, ctx=0, token=b"S" * 40), max_xmit=5840, max_recv=5840, assoc=0x1234, sec_addr="49668", results=ack_results2))
     if name == "alter_context_resp":
         return rrpc.encode(dict(ptype=rrpc.ALTER_CONTEXT_RESP, flags=FL | 4, call_id=1, auth=dict(type=10, level=6, pad=0, ctx=0, token=b"T" * 9), max_xmit=5840, max_recv=5840, assoc=0x1234, sec_addr="", results=[(0, 0, rrpc.NDR64[0], 1)]))
+    if name.startswith("second_response_"):
+        n = int(name.rsplit("_", 1)[1])
+        return rrpc.encode(dict(ptype=rrpc.RESPONSE, flags=FL, call_id=1, auth=None, alloc_hint=n, ctx_id=0, cancel_count=0, stub=bytes((i * 11 + 9) & 0xFF for i in range(n))))
     if name.startswith("response_"):
         n = int(name.split("_")[1])
         return rrpc.encode(dict(ptype=rrpc.RESPONSE, flags=FL, call_id=1, auth=None, alloc_hint=n, ctx_id=0, cancel_count=0, stub=bytes((i * 7 + 3) & 0xFF for i in range(n))))
@@ -94,7 +98,8 @@ class Scenario:
         self.reply = build_reply(reply_name)
         self.auth = reply_name in ("bind_ack_big", "alter_context_resp") or reply_name.startswith("sealed_response")
         self.sealed = reply_name.startswith("sealed_response")
-        self.phase = {"bind_ack_small": 0, "bind_ack_big": 0, "alter_context_resp": 1}.get(reply_name, 2 if self.sealed else 1)
+        self.second = reply_name.startswith("second_")
+        self.phase = {"bind_ack_small": 0, "bind_ack_big": 0, "alter_context_resp": 1}.get(reply_name, 2 if (self.sealed or reply_name.startswith("second_")) else 1)
         self.plain_ack = build_reply("bind_ack_small")
         self.auth_ack = build_reply("bind_ack_big")
 
@@ -128,6 +133,8 @@ class Scenario:
                 return [self.auth_ack if self.auth else self.plain_ack]
             if i == 1 and self.sealed:
                 return [build_reply("alter_context_resp")]
+            if i == 1 and self.second:
+                return [build_reply("response_100")]  # the first request's reply, in one piece
             return []
 
         h.last = False
@@ -142,6 +149,10 @@ class Scenario:
             if self.sealed:
                 client.bind(self.contexts())
                 res = client.request(0, 0, b"REQ-SEALED")
+            elif self.second:
+                client.bind(self.contexts())
+                first = client.request(0, 3, b"REQ-1")
+                res = (first, client.request(0, 3, b"REQ-2"))
             elif self.phase == 0 or self.auth:
                 res = client.bind(self.contexts())
                 if self.name == "alter_context_resp":
@@ -165,6 +176,10 @@ class Scenario:
             if self.sealed:
                 await client.bind(self.contexts())
                 res = await client.request(0, 0, b"REQ-SEALED")
+            elif self.second:
+                await client.bind(self.contexts())
+                first = await client.request(0, 3, b"REQ-1")
+                res = (first, await client.request(0, 3, b"REQ-2"))
             elif self.phase == 0 or self.auth:
                 res = await client.bind(self.contexts())
                 if self.name == "alter_context_resp":
@@ -311,12 +326,12 @@ def run_large(spec, rec: Recorder):
     d = Driver(rec, sc, spec["client"])
     n = len(sc.reply)
     try:
-        for a in range(1, n, 1 if spec["step"] == 1 else 7):
+        for a in range(1, n, 1 if spec["step"] == 1 else (7 if n < 10000 else 53)):
             d.check_partition((a,))
         for a in range(1, 24):
             for b in range(a + 1, n, spec["step"]):
                 d.check_partition((a, b))
-        for k in list(range(0, 40)) + list(range(40, n, 97 if spec["step"] > 1 else 5)):
+        for k in list(range(0, 40)) + list(range(40, n, (97 if n < 10000 else 997) if spec["step"] > 1 else (5 if n < 10000 else 101))):
             d.check_eof(k)
         rec.sample({"reply": sc.name, "len": n, "client": spec["client"], "partitions": f"(a) step, (a<24,b step {spec['step']})"})
     finally:
@@ -325,7 +340,7 @@ def run_large(spec, rec: Recorder):
 
 def run_random(spec, rec: Recorder):
     rng = common.rng_for(ID, spec)
-    names = ["bind_ack_small", "bind_ack_big", "alter_context_resp", "response_0", "response_1", "response_100", "response_5000", "fault", "sealed_response_40"]
+    names = ["bind_ack_small", "bind_ack_big", "alter_context_resp", "response_0", "response_1", "response_100", "response_5000", "fault", "sealed_response_40", "second_response_60", "response_33000"]
     drivers = {}
     try:
         for i in range(spec["n"]):
@@ -337,6 +352,9 @@ def run_random(spec, rec: Recorder):
             mode = rng.randrange(4)
             if mode == 0:
                 cuts = list(range(1, min(n, 300)))  # 1-byte dribble (first 300 bytes)
+                if n > 300 and rng.random() < 0.5:  # plus small chunks over the whole rest of the body
+                    step = rng.choice([1, 2, 3, 7, 64])
+                    cuts += list(range(300, n, step))[:6000]
             elif mode == 1:
                 cuts = sorted(rng.sample(range(1, n), min(n - 1, rng.randrange(3, 12))))
             elif mode == 2:
